@@ -58,7 +58,7 @@ def main():
       tests = ''
       if args.tests:
         r = subprocess.run(
-            ['/venv/bin/python', '-m', 'pytest', '-q', '-p', 'no:cacheprovider', '-x',
+            ['/venv/bin/python', '-m', 'pytest', '-q', '-p', 'no:cacheprovider',
              '--timeout=900', '--continue-on-collection-errors', '-n', '8'],
             cwd=repo, capture_output=True, text=True)
         tail = r.stdout.strip().splitlines()[-1] if r.stdout.strip() else ''
